@@ -268,6 +268,9 @@ def local_crash_case(op, step, pre, size_i):
         for n in listed:
             if n.endswith('.tmp') or '.tmp' in n.rpartition('/')[2]:
                 return False, f'temporary file {n} is listed'
+        extra = set(listed) - {name, 'snapshots/zz/keep-1'}
+        if extra:
+            return False, f'objects nobody uploaded are listed (leftover of the interrupted upload): {sorted(extra)}'
         if 'snapshots/zz/keep-1' not in listed or be2.download('snapshots/zz/keep-1') != b'other object':
             return False, 'unrelated object damaged'
         vis = name in listed
@@ -300,21 +303,36 @@ def e_local_crash(k: int) -> bool:
 
 
 def e_temp_name(k: int) -> bool:
-    """_destination_temp: the temporary file sits in the destination's directory, ends in .tmp, its name is at most
-    255 bytes, for object names whose last component has any length up to 255.
+    """Temporary files created by upload(): in the destination's directory, name ends in .tmp and is at most 255 bytes,
+    for object names whose last component has any length up to 255 (observed through NamedTemporaryFile, whatever the
+    helper that creates them is called).
     pre: 1 <= k <= 255
     post: _
     """
     (n,) = digits(k, [256])
     with NoTracing():
         with world.scratch('c03t') as d:
-            be = LB.Local(str(d))
-            name = 'data/aa/' + 'x' * n
+            made = []
+            real = LB.NamedTemporaryFile
+
+            def rec(**kw):
+                f = real(**kw)
+                made.append(Path(f.name))
+                return f
+            LB.NamedTemporaryFile = rec
             try:
-                dest, temp = be._destination_temp(name)
-            except OSError as e:
-                tick('e_temp_name', [n, 'oserror'])
-                return n > 250          # names close to the file-system limit may be refused, never mangled
-            ok = temp.parent == dest.parent and temp.name.endswith('.tmp') and len(temp.name.encode()) <= 255 and temp.exists() and dest.name == 'x' * n
-            tick('e_temp_name', [n])
+                be = LB.Local(str(d))
+                name = 'data/aa/' + 'x' * n
+                try:
+                    be.upload(name, b'payload')
+                except OSError:
+                    tick('e_temp_name', [n, 'oserror'])
+                    return n > 250          # names close to the file-system limit may be refused, never mangled
+            finally:
+                LB.NamedTemporaryFile = real
+            ok = be.download(name) == b'payload' and list(be.list_files('')) == [name]
+            for t in made:
+                if t.parent != (d / 'data/aa') or not t.name.endswith('.tmp') or len(t.name.encode()) > 255 or t.exists():
+                    ok = False
+            tick('e_temp_name', [n, len(made)])
             return ok
